@@ -259,7 +259,7 @@ def run(ctx):
                           "first": [{"input_hex": cases[ln - 1][:200], "len": len(cases[ln - 1]) // 2, "impl": a, "model": b} for ln, a, b in diffs]}
 
     # ---- S3: images
-    nhist = 24 if ctx.quick else 250
+    nhist = 48 if ctx.quick else 300
     imgdir = os.path.join(ctx.workdir, "imgs")
     rc, out = ctx.harness("c10", ["hist", nhist, imgdir], timeout=3000)
     if rc != 0:
